@@ -45,6 +45,12 @@ type recorder struct {
 	mu      sync.Mutex
 	stored  []key
 	deleted []key
+	merged  []mev // both kinds in the order the listener was called (one FIFO per listener name)
+}
+
+type mev struct {
+	del bool
+	k   key
 }
 
 func (r *recorder) snapshot() (s, d []key) {
@@ -139,6 +145,7 @@ func run(c Case) *hx.Outcome {
 	o := &hx.Outcome{}
 	cfg := hx.DefaultCfg()
 	cfg.Backend, cfg.Cap, cfg.MaxKB, cfg.NoHTTP = c.Backend, c.Cap, c.MaxKB, true
+	cfg.MonitorHistory = 8
 	w, err := hx.NewWorld(cfg)
 	if err != nil {
 		o.Failf(pid+":harness", "world: %v", err)
@@ -149,11 +156,13 @@ func run(c Case) *hx.Outcome {
 	w.Host.Events.AfterMessageStored.AddListener("verif", func(m event.MessageMetadata) {
 		rec.mu.Lock()
 		rec.stored = append(rec.stored, key{m.Mailbox, m.ID})
+		rec.merged = append(rec.merged, mev{false, key{m.Mailbox, m.ID}})
 		rec.mu.Unlock()
 	})
 	w.Host.Events.AfterMessageDeleted.AddListener("verif", func(m event.MessageMetadata) {
 		rec.mu.Lock()
 		rec.deleted = append(rec.deleted, key{m.Mailbox, m.ID})
+		rec.merged = append(rec.merged, mev{true, key{m.Mailbox, m.ID}})
 		rec.mu.Unlock()
 	})
 	deliveries := map[string]int{}
@@ -230,6 +239,64 @@ func run(c Case) *hx.Outcome {
 		s, d := rec.snapshot()
 		o.Failf(pid+":event-accounting", "[%s cap=%d maxkb=%d] %s (stored events %d, deleted events %d, deliveries %d)", c.Backend, c.Cap, c.MaxKB, msg, len(s), len(d), total)
 	}
+	if msg == "" {
+		// The monitor hub is a listener like ours: what it retains must be the most recent
+		// MonitorHistory stored messages, in emission order, minus the deleted ones. Both
+		// listeners are fed in emission order, so our own record is the reference.
+		time.Sleep(5 * time.Millisecond)
+		w.Quiesce()
+		hl := &histListener{}
+		w.Hub.AddListener(hl)
+		w.Hub.Sync()
+		w.Hub.RemoveListener(hl)
+		rec.mu.Lock()
+		merged := append([]mev{}, rec.merged...)
+		rec.mu.Unlock()
+		// causal order: a message's stored event comes before its deleted event
+		seenStored := map[key]bool{}
+		for _, e := range merged {
+			if !e.del {
+				seenStored[e.k] = true
+			} else if !seenStored[e.k] {
+				o.Failf(pid+":deleted-before-stored", "[%s cap=%d maxkb=%d] the deleted event of %v was delivered before its stored event", c.Backend, c.Cap, c.MaxKB, e.k)
+				break
+			}
+		}
+		// what the hub does with that very stream: window of the last N stored, a delete blanks
+		// an entry only if it is in the window when the delete arrives
+		type slot struct {
+			k    key
+			gone bool
+		}
+		var win []slot
+		for _, e := range merged {
+			if !e.del {
+				win = append(win, slot{k: e.k})
+				if len(win) > cfg.MonitorHistory {
+					win = win[1:]
+				}
+				continue
+			}
+			for i := range win {
+				if win[i].k == e.k && !win[i].gone {
+					win[i].gone = true
+					break
+				}
+			}
+		}
+		var want []string
+		for _, sl := range win {
+			if !sl.gone {
+				want = append(want, sl.k.mailbox+"/"+sl.k.id)
+			}
+		}
+		hl.mu.Lock()
+		got := append([]string{}, hl.got...)
+		hl.mu.Unlock()
+		if strings.Join(got, " ") != strings.Join(want, " ") {
+			o.Failf(pid+":hub-history", "[%s cap=%d maxkb=%d] the monitor hub retains %v, the event stream implies %v", c.Backend, c.Cap, c.MaxKB, got, want)
+		}
+	}
 	o.NonTrivial = evicting || scanned
 	if evicting {
 		o.Class("eviction by cap or size")
@@ -240,6 +307,20 @@ func run(c Case) *hx.Outcome {
 	o.Class("backend " + c.Backend)
 	return o
 }
+
+type histListener struct {
+	mu  sync.Mutex
+	got []string
+}
+
+func (h *histListener) Receive(m event.MessageMetadata) error {
+	h.mu.Lock()
+	h.got = append(h.got, m.Mailbox+"/"+m.ID)
+	h.mu.Unlock()
+	return nil
+}
+
+func (h *histListener) Delete(mailbox, id string) error { return nil }
 
 // ---- (b) serialisation probe ----
 
